@@ -260,12 +260,15 @@ def job_c17(clsname, seed, count, replay_calls=None):
                 fails.append({"what": "model cannot interpret its own rendering (machinery)", "call": call})
                 continue
             ctrlrun.LOG.clear()
-            chunks = await s.send(text, rounds=30)
-            logA = sorted(ctrlrun.LOG)
-            ctrlrun.LOG.clear()
+            s.writer.take()
+            s.reader.feed_data(text.encode() + b"\n")
             fut = asyncio.ensure_future(ctrlrun.apply_pycall(B, surf, py))
             await ctrlrun.settle(30)
-            logB = sorted(ctrlrun.LOG)
+            # the command and the direct call start one loop iteration apart; long workloads (many
+            # tasks on a small pool) are allowed to run out before anything is compared
+            await ctrlrun.settle_pools([A, B], groups,
+                                       extra=lambda: (fut.done(), len(s.writer.chunks)))
+            chunks = s.writer.take()
             n_checks += 1
             got = b"".join(chunks).decode()
             if not fut.done():
@@ -278,6 +281,8 @@ def job_c17(clsname, seed, count, replay_calls=None):
                                   "call": call, "line": text, "reply": got, "index": n_checks - 1})
                 break
             want = fut.result()
+            logA = sorted(x[1:] for x in ctrlrun.LOG if x[0] == "A")
+            logB = sorted(x[1:] for x in ctrlrun.LOG if x[0] == "B")
             oa, ob = ctrlrun.pool_obs(A, groups), ctrlrun.pool_obs(B, groups)
             if len(samples) < 4:
                 samples.append({"line": text, "predicted_call": py, "reply": got})
